@@ -1921,6 +1921,18 @@ class Interp:
         def b_minmax(which):
             def f(I, a, k, n):
                 items = I.iterate(a[0], n) if len(a) == 1 else list(a)
+                if k.get("key") is not None:
+                    # min/max(items, key=f): first item whose key is extremal (Python semantics); keys must be concrete numbers
+                    keys = [I.call_value(k["key"], [x], {}, n) for x in items]
+                    if not items:
+                        if "default" in k:
+                            return k["default"]
+                        raise I.fault("ValueError", n, f"{which}() arg is an empty sequence")
+                    if all(isinstance(x, Num) and x.is_const() for x in keys):
+                        vals = [x.value() for x in keys]
+                        best = (min if which == "min" else max)(vals)
+                        return items[vals.index(best)]
+                    I.err(n, f"{which}(key=...) over symbolic keys")
                 if isinstance(a[0], Arr) and len(a) == 1:
                     return Num.atom(f"{which}({I.describe(a[0])})")
                 if all(isinstance(x, Num) and x.is_const() for x in items) and items:
